@@ -31,6 +31,13 @@ type binJudge struct {
 	sh  *mon.Shard
 }
 
+func b2int(b bool) int {
+	if b {
+		return 1
+	}
+	return 0
+}
+
 func bitsFromBytes(b []byte) ref.Bits {
 	return ref.Bits{Hi: binary.BigEndian.Uint64(b[0:8]), Lo: binary.BigEndian.Uint64(b[8:16])}
 }
@@ -44,7 +51,7 @@ func bytesFromBits(b ref.Bits) []byte {
 
 // judgeMarshal checks MarshalBinary of a Decimal given by the library value d
 // (origin describes how d was produced).
-func (j *binJudge) judgeMarshal(d D, origin string) {
+func (j *binJudge) judgeMarshal(d D, origin string, intended ...ref.Num) {
 	rb := toB(d)
 	mk := func(op string) *mon.Case {
 		c := j.ctx.NewCase(j.sh, op)
@@ -105,6 +112,16 @@ func (j *binJudge) judgeMarshal(d D, origin string) {
 		if !ref.SameValue(m, k, dec.Coef, dec.Exp) || (numeral.SignChar == '-') != dec.Neg || dec.Neg != d.Signbit() {
 			j.sh.Violate(mk("MarshalBinary"), "encoding", "BID fields denoting d.String() = "+text, dec.String(), detail)
 			return
+		}
+		// when the producer's intended exact value is known (a literal or New
+		// arguments that are representable as written), the bytes must denote it
+		if len(intended) == 1 {
+			w := intended[0]
+			if dec.Neg != w.Neg || !ref.SameValue(dec.Coef, dec.Exp, w.Coef, w.Exp) {
+				j.sh.Violate(mk("MarshalBinary"), "encoding", "BID fields denoting the produced value "+w.String(), dec.String(), detail)
+				return
+			}
+			j.sh.Cell("marshal/intended-value-checked")
 		}
 		// form rule: the steering form only when the coefficient needs bit 113
 		if dec.Large && dec.Coef.BitLen() <= 113 {
@@ -222,12 +239,40 @@ func runC12(c *Ctx) {
 			case 1: // uniform 16 bytes
 				j.judgeUnmarshal(bytesFromBits(ref.Bits{Hi: r.U64(), Lo: r.U64()}))
 			case 2: // produced by Parse
-				lit := fmt.Sprintf("%s%se%d", []string{"", "-"}[r.Intn(2)], r.Digits(r.Range(1, 40)).String(), r.Range(-6200, 6150))
+				digits := r.Digits(r.Range(1, 40)).String()
+				if r.Bool() {
+					// hostile coefficient shapes (form boundary 2^113, word boundaries, Cmax ...)
+					c, _ := r.Coef()
+					digits = c.String()
+				}
+				neg := r.Bool()
+				e := r.Range(-6200, 6150)
+				lit := fmt.Sprintf("%s%se%d", []string{"", "-"}[b2int(neg)], digits, e)
 				if d, err := decimal128.Parse(lit); err == nil {
-					j.judgeMarshal(d, "parse")
+					c, _ := new(big.Int).SetString(digits, 10)
+					if c.Cmp(ref.Cmax) <= 0 && e >= ref.MinExp && e <= ref.MaxExp {
+						j.judgeMarshal(d, "parse", ref.Num{Class: ref.Finite, Neg: neg, Coef: c, Exp: e})
+					} else {
+						j.judgeMarshal(d, "parse")
+					}
 				}
 			case 3: // produced by arithmetic
 				x, y := toD(r.Finite()), toD(r.Finite())
+				if r.Chance(1, 3) {
+					// identity operations: the operand's value is re-composed by the library
+					one := decimal128.New(1, 0)
+					switch r.Intn(4) {
+					case 0:
+						j.judgeMarshal(x.Mul(one), "mul")
+					case 1:
+						j.judgeMarshal(x.Quo(one), "quo")
+					case 2:
+						j.judgeMarshal(x.Add(decimal128.New(0, 0)), "add")
+					default:
+						j.judgeMarshal(x.Round(40, decimal128.ToZero).Sub(decimal128.New(0, 0)), "sub")
+					}
+					continue
+				}
 				switch r.Intn(4) {
 				case 0:
 					j.judgeMarshal(x.Add(y), "add")
@@ -247,7 +292,7 @@ func runC12(c *Ctx) {
 	})
 	c.Col.Res.Targets = append(c.Col.Res.Targets,
 		mon.Target{Prefix: "bexp/", Total: 192, Min: 192},
-		mon.Target{Prefix: "marshal/", Total: 4, Min: 4},
+		mon.Target{Prefix: "marshal/", Total: 5, Min: 5},
 		mon.Target{Prefix: "origin/", Total: 7, Min: 7},
 	)
 }
